@@ -1365,14 +1365,19 @@ def parse_assignment_indices(indices, shape):
                 # >>> a[slice(6, 0, -2)] == list(reversed(a[slice(2, 7, 2)]))
                 # True
                 start, stop, step = index.indices(size)
-                step *= -1
-                div, mod = divmod(start - stop - 1, step)
-                div_step = div * step
-                start -= div_step
-                stop = start + div_step + 1
+                if start <= stop:
+                    # The decreasing slice selects nothing (the arithmetic
+                    # below is only valid for a non-empty selection)
+                    index = slice(0, 0, 1)
+                else:
+                    step *= -1
+                    div, mod = divmod(start - stop - 1, step)
+                    div_step = div * step
+                    start -= div_step
+                    stop = start + div_step + 1
 
-                index = slice(start, stop, step)
-                reverse.append(i)
+                    index = slice(start, stop, step)
+                    reverse.append(i)
 
             start, stop, step = index.indices(size)
 
@@ -1727,13 +1732,26 @@ def setitem_array(out_name, array, indices, value):
         indices, array_shape
     )
 
-    # Empty slices can only be assigned size 1 values
-    if 0 in implied_shape and value_shape and max(value_shape) > 1:
-        raise ValueError(
-            f"shape mismatch: value array of shape {value_shape} "
-            "could not be broadcast to indexing result "
-            f"of shape {tuple(implied_shape)}"
+    if 0 in implied_shape:
+        # Nothing is selected, so nothing is assigned: as in NumPy, the
+        # value only has to be broadcastable to the (empty) indexing result
+        # (extra leading dimensions of size 1 are allowed).
+        n_extra = max(value_ndim - len(implied_shape), 0)
+        broadcastable = all(n == 1 for n in value_shape[:n_extra]) and all(
+            b == 1 or b == a or math.isnan(a) or math.isnan(b)
+            for a, b in zip(reversed(implied_shape), reversed(value_shape))
         )
+        if not broadcastable:
+            raise ValueError(
+                f"shape mismatch: value array of shape {value_shape} "
+                "could not be broadcast to indexing result "
+                f"of shape {tuple(implied_shape)}"
+            )
+
+        return {
+            (out_name,) + in_key[1:]: in_key
+            for in_key in flatten(array.__dask_keys__())
+        }
 
     # Set variables needed when creating the part of the assignment
     # value that applies to each block.
